@@ -3,7 +3,6 @@ package main
 import (
 	"fmt"
 	"go/ast"
-	"go/token"
 	"go/types"
 	"sort"
 	"strings"
@@ -42,8 +41,15 @@ func (m *tblModel) tblPanickingSwitches(f *tblFn) []tblSwitch {
 			cc := c.(*ast.CaseClause)
 			if cc.List == nil {
 				hasDefault = true
-				if len(cc.Body) > 0 && m.tblIsPanicStmt(info, cc.Body[len(cc.Body)-1]) {
-					how = "default panics"
+				// (statements after the panic - a `return` to satisfy the compiler - are dead)
+				for _, st := range cc.Body {
+					if m.tblIsPanicStmt(info, st) {
+						how = "default panics"
+						break
+					}
+					if tblHasExit(st) {
+						break
+					}
 				}
 			}
 		}
@@ -325,28 +331,13 @@ func (m *tblModel) returnSet(fn *types.Func, en *Enum) map[string]bool {
 	if sig.Results().Len() != 1 || m.enumOf(sig.Results().At(0).Type()) == nil || m.enumOf(sig.Results().At(0).Type()).Type != en.Type {
 		return nil
 	}
-	out := map[string]bool{}
-	ok := true
-	ast.Inspect(f.Decl.Body, func(n ast.Node) bool {
-		switch x := n.(type) {
-		case *ast.FuncLit:
-			return false
-		case *ast.ReturnStmt:
-			if len(x.Results) != 1 {
-				ok = false
-				return true
-			}
-			k := ConstOf(f.Pkg.TypesInfo, x.Results[0])
-			if k == nil {
-				ok = false
-				return true
-			}
-			out[k.Val().ExactString()] = true
-		}
-		return true
-	})
-	if !ok || len(out) == 0 {
+	ks, why := m.constResults(f, 0)
+	if why != "" || len(ks) == 0 {
 		return nil
+	}
+	out := map[string]bool{}
+	for _, k := range ks {
+		out[k.Val().ExactString()] = true
 	}
 	return out
 }
@@ -359,9 +350,67 @@ func (m *tblModel) returnSet(fn *types.Func, en *Enum) map[string]bool {
 // member) tables that R-optable / R-members compare against the analyzer's
 // admission tables; here they are only counted.
 func (m *tblModel) tblLicensedByTyping(g *tblGuard, sw *ast.SwitchStmt) string {
+	if w := m.tblLicensedAt(g, sw, sw); w != "" {
+		return w
+	}
+	// a clause body extracted into a helper: the helper dispatches on what the clause hands it (a
+	// parameter, or something reached from one)
+	if sw.Tag != nil {
+		if root := tblRootObj(g.info, g.defOf(sw.Tag)); root != nil {
+			if _, isParam := tblParamIndex(g.fn, root); isParam {
+				return m.tblLicensedByCallers(g.fn, 0)
+			}
+		}
+	}
+	return ""
+}
+
+// tblLicensedByCallers: the function is only ever entered from inside a clause
+// of a typing-licensed dispatch (the body of such a clause extracted into a
+// helper): every reference is a direct call and every call sits in such a
+// clause, or in a function that is itself only entered that way.
+func (m *tblModel) tblLicensedByCallers(f *tblFn, depth int) string {
+	if f == nil || depth > 2 {
+		return ""
+	}
+	if closed, _ := m.reach().isClosed(f.Obj); !closed {
+		return ""
+	}
+	uses := m.uses[f.Obj]
+	if len(uses) == 0 {
+		return ""
+	}
+	why := ""
+	for _, u := range uses {
+		if u.Call == nil || u.In == nil || u.In == f {
+			return ""
+		}
+		g := m.guardFor(u.In)
+		w := m.tblLicensedAt(g, u.Call, nil)
+		if w == "" {
+			w = m.tblLicensedByCallers(u.In, depth+1)
+		}
+		if w == "" {
+			return ""
+		}
+		if why == "" {
+			why = w
+		}
+	}
+	if strings.HasPrefix(why, "reached only from") {
+		return why
+	}
+	return "reached only from " + strings.TrimPrefix(why, "nested in ") + " (every call site of " + f.name() + ")"
+}
+
+// tblLicensedAt: node (inside g's function) is a licensed dispatch itself
+// (self != nil) or lies in a clause of one.
+func (m *tblModel) tblLicensedAt(g *tblGuard, node ast.Node, self *ast.SwitchStmt) string {
 	info := g.info
+	sw := self
 	direct := func(sw *ast.SwitchStmt) string {
-		call, ok := ast.Unparen(sw.Tag).(*ast.CallExpr)
+		// `k := x.Kind(); switch k` is `switch x.Kind()`
+		call, ok := g.defOf(sw.Tag).(*ast.CallExpr)
 		if !ok || len(call.Args) != 0 {
 			return ""
 		}
@@ -377,7 +426,7 @@ func (m *tblModel) tblLicensedByTyping(g *tblGuard, sw *ast.SwitchStmt) string {
 			return "kind of a runtime value"
 		}
 		// <expr>.Type().Kind(): kind of the static type of an analysed node
-		if c2, ok := ast.Unparen(se.X).(*ast.CallExpr); ok && len(c2.Args) == 0 {
+		if c2, ok := g.defOf(se.X).(*ast.CallExpr); ok && len(c2.Args) == 0 {
 			if s2, ok := ast.Unparen(c2.Fun).(*ast.SelectorExpr); ok && s2.Sel.Name == "Type" {
 				if nk := m.ifaceOf(info.TypeOf(s2.X)); nk != nil && !m.tblIsValueIface(nk) {
 					return "kind of the static type of an analysed node"
@@ -386,13 +435,15 @@ func (m *tblModel) tblLicensedByTyping(g *tblGuard, sw *ast.SwitchStmt) string {
 		}
 		return ""
 	}
-	if sw.Tag == nil {
-		return ""
+	if sw != nil {
+		if sw.Tag == nil {
+			return ""
+		}
+		if w := direct(sw); w != "" {
+			return w
+		}
 	}
-	if w := direct(sw); w != "" {
-		return w
-	}
-	for n := g.parents[sw]; n != nil; n = g.parents[n] {
+	for n := g.parents[node]; n != nil; n = g.parents[n] {
 		if _, ok := n.(*ast.FuncLit); ok {
 			break
 		}
@@ -406,8 +457,9 @@ func (m *tblModel) tblLicensedByTyping(g *tblGuard, sw *ast.SwitchStmt) string {
 }
 
 // recoveryOnly: AST node types of analyzer/ast that the analyzer builds only
-// right after reporting an error diagnostic (error-recovery placeholders).
-// Stages that run on successfully analysed programs never meet them.
+// together with an error diagnostic (error-recovery placeholders; see
+// rules_tables_recovery.go). Stages that run on successfully analysed programs
+// never meet them.
 func (m *tblModel) recoveryOnly() map[*types.TypeName]string {
 	tblModelMu.Lock()
 	if m.recovery != nil {
@@ -415,124 +467,7 @@ func (m *tblModel) recoveryOnly() map[*types.TypeName]string {
 		return m.recovery
 	}
 	tblModelMu.Unlock()
-	out := map[*types.TypeName]string{}
-	c := m.c
-	ap := c.Pkg("homescript/analyzer")
-	// the level constant Analyze tests to decide that analysis failed
-	var errLevel *types.Const
-	if fd := FuncDecl(ap, "Analyzer", "Analyze"); fd != nil && fd.Body != nil {
-		ast.Inspect(fd.Body, func(n ast.Node) bool {
-			be, ok := n.(*ast.BinaryExpr)
-			if !ok || be.Op != token.EQL {
-				return true
-			}
-			if k := ConstOf(ap.TypesInfo, be.Y); k != nil && m.enumOf(k.Type()) != nil && strings.HasSuffix(k.Type().String(), "diagnostic.DiagnosticLevel") {
-				errLevel = k
-			}
-			return true
-		})
-	}
-	reporters := map[*types.Func]bool{}
-	if errLevel != nil {
-		for _, fd := range AllFuncDecls(ap) {
-			if len(fd.Body.List) != 1 {
-				continue
-			}
-			found := false
-			ast.Inspect(fd.Body, func(n ast.Node) bool {
-				cl, ok := n.(*ast.CompositeLit)
-				if !ok {
-					return true
-				}
-				for _, el := range cl.Elts {
-					if kv, ok := el.(*ast.KeyValueExpr); ok {
-						if k := ConstOf(ap.TypesInfo, kv.Value); k != nil && k == errLevel {
-							found = true
-						}
-					}
-				}
-				return true
-			})
-			if found {
-				if obj, ok := ap.TypesInfo.Defs[fd.Name].(*types.Func); ok {
-					reporters[obj] = true
-				}
-			}
-		}
-	}
-	if len(reporters) > 0 {
-		type site struct {
-			ok  bool
-			pos token.Pos
-		}
-		sites := map[*types.TypeName][]site{}
-		nodeTypes := map[*types.TypeName]bool{}
-		for _, ki := range m.ifaces {
-			if strings.HasSuffix(ki.Named.Obj().Pkg().Path(), "/analyzer/ast") {
-				for _, im := range ki.Impls {
-					nodeTypes[im.T.Obj()] = true
-				}
-			}
-		}
-		for _, p := range c.All {
-			for _, fd := range AllFuncDecls(p) {
-				par := tblParents(fd)
-				ast.Inspect(fd.Body, func(n ast.Node) bool {
-					cl, ok := n.(*ast.CompositeLit)
-					if !ok {
-						return true
-					}
-					nt, ok := types.Unalias(p.TypesInfo.TypeOf(cl)).(*types.Named)
-					if !ok || !nodeTypes[nt.Obj()] {
-						return true
-					}
-					dominated := false
-					if p == ap {
-						for ch, pa := ast.Node(cl), par[cl]; pa != nil && !dominated; ch, pa = pa, par[pa] {
-							var list []ast.Stmt
-							switch x := pa.(type) {
-							case *ast.BlockStmt:
-								list = x.List
-							case *ast.CaseClause:
-								list = x.Body
-							case *ast.FuncLit:
-								pa = nil
-							}
-							if pa == nil {
-								break
-							}
-							for _, s := range list {
-								if ast.Node(s) == ch {
-									break
-								}
-								if es, ok := s.(*ast.ExprStmt); ok {
-									if call, ok := es.X.(*ast.CallExpr); ok {
-										if fn := CalleeOf(p.TypesInfo, call); fn != nil && reporters[fn.Origin()] {
-											dominated = true
-										}
-									}
-								}
-							}
-						}
-					}
-					sites[nt.Obj()] = append(sites[nt.Obj()], site{dominated, cl.Pos()})
-					return true
-				})
-			}
-		}
-		for tn, ss := range sites {
-			all := len(ss) > 0
-			var where []string
-			for _, s := range ss {
-				all = all && s.ok
-				where = append(where, c.Pos(s.pos))
-			}
-			if all {
-				sort.Strings(where)
-				out[tn] = fmt.Sprintf("every literal of %s (%s) follows a call of the analyzer's error reporter", tn.Name(), strings.Join(where, ", "))
-			}
-		}
-	}
+	out := m.computeRecoveryOnly()
 	tblModelMu.Lock()
 	m.recovery = out
 	tblModelMu.Unlock()
@@ -569,7 +504,8 @@ func ruleEnumTotal(c *Ctx) []Obligation {
 				if len(ps.context) > 0 {
 					key += strings.Join(ps.context, "|") + "|"
 				}
-				key = tblUniq(seen, key+"switch "+exprStr(sw.Tag))
+				// keyed by what is dispatched on: `k := x.Kind(); switch k` is `switch x.Kind()`
+				key = tblUniq(seen, key+"switch "+exprStr(r.guard(f).defOf(sw.Tag)))
 				pos := c.Pos(sw.Pos())
 				g := r.guard(f)
 
@@ -624,7 +560,8 @@ func ruleEnumTotal(c *Ctx) []Obligation {
 				baseWhy := "arbitrary value of " + tblTypeName(en.Type) + ": all constants"
 				class := "value"
 				tp := g.pathOf(sw.Tag)
-				if call, ok := ast.Unparen(sw.Tag).(*ast.CallExpr); ok && len(call.Args) == 0 {
+				// where the value comes from (`k := x.Kind(); switch k` is `switch x.Kind()`)
+				if call, ok := g.defOf(sw.Tag).(*ast.CallExpr); ok && len(call.Args) == 0 {
 					if se, ok := ast.Unparen(call.Fun).(*ast.SelectorExpr); ok {
 						recvT := info.TypeOf(se.X)
 						if ki := m.ifaceOf(recvT); ki != nil && se.Sel.Name == "Kind" && ki.Enum.Type == en.Type {
